@@ -88,3 +88,28 @@ def default_config(poll_s=1):
 
 def mono_ns():
     return time.monotonic_ns()
+
+
+def merge_strace(path):
+    """strace -f output with '<unfinished ...>' / '<... resumed>' pairs merged per thread: every syscall is one line with its result"""
+    import re
+    merged, pending = [], {}
+    try:
+        fh = open(path, errors="replace")
+    except OSError:
+        return merged
+    with fh:
+        for raw in fh:
+            raw = raw.rstrip("\n")
+            tid, _, rest = raw.partition(" ")
+            rest = rest.strip()
+            if rest.endswith("<unfinished ...>"):
+                pending[tid] = rest[:-len("<unfinished ...>")]
+                continue
+            m = re.match(r"<\.\.\. \w+ resumed>(.*)", rest)
+            if m and tid in pending:
+                rest = pending.pop(tid) + m.group(1)
+            merged.append(tid + "    " + rest)
+    for tid, rest in pending.items():      # killed while inside the call
+        merged.append(tid + "    " + rest + " = ?")
+    return merged
